@@ -169,4 +169,24 @@ theorem list_files_reach_the_key :
     -- non-vacuity: without such an option the list is empty
     extraHashOf (parseArgs (search2 gccArgs clangArgs) true false false [[45, 99], [120, 46, 99]] (search2 gccArgs clangArgs)) = some [] := by decide +kernel
 
+/-- the dependency target synthesized for `-MD` / `-MMD` without `-MT` / `-MQ` (fix F-C01-o): an object path without white space, `$`
+    and `#` is passed on unchanged — the common case keeps its exact bytes … -/
+theorem makeQuote_plain (t : ArgsM.Bytes) (bs : Nat) (h : ∀ c ∈ t, c ≠ 32 ∧ c ≠ 9 ∧ c ≠ 36 ∧ c ≠ 35) : makeQuoteGo bs t = t := by
+  induction t generalizing bs with
+  | nil => rfl
+  | cons c r ih =>
+    have hc := h c (List.mem_cons_self ..)
+    have h1 : (c == 32) = false := by simp [hc.1]
+    have h2 : (c == 9) = false := by simp [hc.2.1]
+    have h3 : (c == 36) = false := by simp [hc.2.2.1]
+    have h4 : (c == 35) = false := by simp [hc.2.2.2]
+    simp only [makeQuoteGo, h1, h2, h3, h4, Bool.or_self, Bool.false_eq_true, if_false, List.nil_append]
+    rw [ih _ (fun x hx => h x (List.mem_cons_of_mem _ hx))]
+
+/-- … and the special characters are quoted the way gcc and clang quote their own default target: `a b$c#d.o` ↦ `a\ b$$c\#d.o`,
+    and a backslash right before a space is doubled: `e\ f.o` ↦ `e\\\ f.o` (kernel-checked; the real `quote_for_make` is tied through h_args) -/
+theorem makeQuote_specials :
+    makeQuoteGo 0 [97, 32, 98, 36, 99, 35, 100, 46, 111] = [97, 92, 32, 98, 36, 36, 99, 92, 35, 100, 46, 111] ∧
+    makeQuoteGo 0 [101, 92, 32, 102, 46, 111] = [101, 92, 92, 92, 32, 102, 46, 111] := by decide
+
 end C01
